@@ -109,7 +109,10 @@ func genOIDCDoc(c *sim.Case, role int) doc {
 	}
 	c17Field(c, d, "scopes", 3, 3, 1, []any{[]any{"openid"}, []any{"email"}, []any{"email", "profile"}, []any{"email", "openid", "openid"},
 		// values that merely contain, or resemble, the scope that has to be there
-		[]any{"openid_groups"}, []any{"https://idp.test/scopes/openid.groups", "email"}, []any{"myopenid"}, []any{"openid profile"}, []any{"OpenID", "email"}},
+		[]any{"openid_groups"}, []any{"https://idp.test/scopes/openid.groups", "email"}, []any{"myopenid"}, []any{"openid profile"}, []any{"OpenID", "email"},
+		// as many as a real client asks for
+		[]any{"email", "profile", "groups", "offline_access", "address", "phone", "roles", "api.read", "api.write", "audit"},
+		[]any{"email", "profile", "groups", "offline_access", "address", "phone", "roles", "api.read", "api.write", "audit", "billing", "openid", "admin"}},
 		[]any{[]any{}, []any{""}, []any{"OPENID"}})
 	c17Field(c, d, "cookie_name_prefix", 4, 1, 1, []any{"p", "my-app"}, []any{"", "a;b", " "})
 	c17Field(c, d, "id_token", wo, wv, wd*2, []any{doc{"header": "authorization", "preamble": "Bearer"}, doc{"header": "x-id-token"}},
@@ -174,7 +177,10 @@ func genConfigDoc(c *sim.Case) doc {
 	if sim.Weighted(c, "trigger", 3, 1) == 1 {
 		d["trigger_rules"] = []any{doc{"excluded_paths": []any{doc{"exact": "/public"}, doc{}}, "included_paths": []any{doc{"prefix": "/"}, doc{"regex": "("}}}}
 	}
-	nch := sim.Weighted(c, "nchains", 1, 8, 3, 1)
+	nch := sim.Weighted(c, "nchains", 2, 16, 6, 2, 1)
+	if nch == 4 {
+		nch = 4 + sim.Pick(c, "nchains.more", 10) // a chain per host: a dozen is ordinary
+	}
 	var chains []any
 	for i := 0; i < nch; i++ {
 		ch := doc{}
@@ -496,8 +502,8 @@ func genOverridePair(c *sim.Case) (def, ov doc) {
 	}
 	if sim.Bool(c, "pair.scopes") {
 		// (decoded lists of 3 or 5-7 entries have spare capacity: whoever appends to one in place shares it)
-		place("scopes", [][]any{{"email"}, {"profile", "email", "groups"}, {"a", "b", "c", "d", "e"}, {"openid", "email", "x"}}[sim.Pick(c, "pair.defscopes", 4)],
-			[][]any{{"profile", "groups"}, {"email"}, {}, {"offline_access"}}[sim.Pick(c, "pair.ovscopes", 4)])
+		place("scopes", [][]any{{"email"}, {"profile", "email", "groups"}, {"a", "b", "c", "d", "e"}, {"openid", "email", "x"}, {"a", "b", "c", "d", "e", "f", "g"}}[sim.Pick(c, "pair.defscopes", 5)],
+			[][]any{{"profile", "groups"}, {"email"}, {}, {"offline_access"}, {"h", "i", "j", "k"}}[sim.Pick(c, "pair.ovscopes", 5)])
 	}
 	if sim.Bool(c, "pair.at") {
 		place("access_token", doc{"header": "x-default-at"}, doc{"header": "x-override-at", "preamble": "Bearer"})
@@ -523,7 +529,7 @@ func c17Grammar(c *sim.Case) {
 		c17NoOmit = true
 		d = doc{"listen_address": "127.0.0.1", "listen_port": 10003, "log_level": "info"}
 		var chains []any
-		for i, n := 0, 1+sim.Pick(c, "nchains", 2); i < n; i++ {
+		for i, n := 0, 1+sim.Tail(c, "nchains", 2, 13); i < n; i++ {
 			// filter layouts: one OIDC filter alone or beside mocks, and layouts with a second OIDC filter (adjacent or not)
 			layout := []string{"o", "om", "mo", "oo", "omo", "momo", "ommo", "mom"}[sim.Weighted(c, "layout", 6, 4, 3, 1, 2, 1, 1, 1)]
 			var fs []any
@@ -551,9 +557,11 @@ func c17Grammar(c *sim.Case) {
 			chains = []any{doc{"name": "a", "filters": []any{doc{"oidc_override": ov}, doc{"mock": doc{"allow": true}}, doc{"oidc_override": ovx}}}}
 			c.Class("layout:several-oidc-filters-in-a-chain")
 		}
-		if sim.Bool(c, "second-override") {
+		// further chains with overrides of their own (a chain per host: up to a dozen)
+		for k, n := 0, sim.Tail(c, "second-override", 2, 12); k < n; k++ {
 			_, ov2 := genOverridePair(c)
-			chains = append(chains, doc{"name": "b", "match": doc{"header": "x-tenant", "equality": "b"}, "filters": []any{doc{"oidc_override": ov2}}})
+			name := fmt.Sprintf("b%d", k)
+			chains = append(chains, doc{"name": name, "match": doc{"header": "x-tenant", "equality": name}, "filters": []any{doc{"oidc_override": ov2}}})
 		}
 		if c17Odd > 0 {
 			// one odd value somewhere: may make the pair invalid only after merging
